@@ -181,7 +181,7 @@ def run_shard(ctx):
             info = g.info[cname]
             nt = bool(info["cls"]["extends"]) or any(c["type"] in [x for x in g.info] or "." not in c["type"] and c["type"] not in mlib.BUILTIN and c["type"] not in g.base_of
                                                       for c in info["cls"]["comps"])
-            ctx.case({"t": text, "c": cname}, nt, {"library": text, "class": cname} if ctx.cases < 1 and nt else None)
+            ctx.case({"t": text, "c": cname}, nt, {"library": text, "class": cname} if not ctx.samples and nt else None)
             ctx.guarded(check_class, ctx, lib, text, cname, g.tags, rng, g.ext_classes.get(cname, "core"), timeout=60)
 
 
